@@ -216,12 +216,12 @@ Proof.
     - rewrite app_comm_cons, ends_slash_snoc. apply N.eqb_refl.
     - rewrite app_nil_r. destruct (join_last segs Hne Hg Hn) as (y & c & -> & Hc).
       rewrite app_comm_cons, ends_slash_snoc. now apply N.eqb_neq. }
-  unfold new_path. rewrite Hstr at 1. cbn [rooted]. rewrite N.eqb_refl. cbn [negb].
-  rewrite Hsegs'. subst segs.
+  assert (Hr : rooted (pp_str p) = true) by (rewrite Hstr; cbn [rooted]; apply N.eqb_refl).
+  unfold new_path. rewrite Hr, Hsegs'. cbn [negb]. subst segs.
   assert (Hs2 : segments_to_string (ns :: root :: rest) = SL :: join (ns :: root :: rest)).
   { unfold segments_to_string. destruct (join (ns :: root :: rest)) eqn:Ej; [|reflexivity].
     exfalso. change (join (ns :: root :: rest)) with (ns ++ SL :: join (root :: rest)) in Ej. destruct ns; discriminate. }
-  rewrite Hs2, Hend, <- Hstr.
+  rewrite Hs2, Hend, <- app_comm_cons, <- Hstr.
   destruct p as [ps pn pc]. cbn [pp_str pp_ns pp_cid] in *. subst pn.
   destruct Hcase as [([->| ->] & Hd & Hnn)|[-> ->]].
   - cbn [str_eqb]. rewrite str_eqb_refl. cbn [orb]. rewrite Hd. destruct pc; [reflexivity|congruence].
